@@ -1532,3 +1532,11 @@ mod test {
         }
     }
 }
+
+/// Verification hooks: compiled only with `--cfg eigerco_lumina_verif` (see /verif).
+#[cfg(eigerco_lumina_verif)]
+#[doc(hidden)]
+#[allow(unused_imports, missing_docs, dead_code, unreachable_pub)]
+pub mod verif {
+    use super::*;
+}
